@@ -491,11 +491,52 @@ from props.simconc import Tracer as _Tracer, random_case, compare as _compare, A
 def concrete_run(case, fill=0):
     """Run the real closure of case['table'][case['index']] once on the concrete
     state of `case`; compare with the spec evaluated on ints. Returns diffs."""
+    if (case['table'], case['index']) in DISPATCH:
+        return concrete_dispatch(case)
     r = concrete_exec(case)
     if r is None:
         return []
     mach, sim, exc, got, flat0, flat1, log = r
     return exc + _compare(case, mach.cmio, got, flat0, flat1, log, sim.frame_duration, sim.int_active)
+
+
+def concrete_dispatch(case):
+    """A slot that only dispatches into another table: run the real closure with the target table's entries replaced by
+    recorders (the closure holds the table object itself); it must call exactly the entry numbered by the byte at
+    PC + offset (mod 65536) and touch neither registers nor memory."""
+    mach = get_machine(case['cls'], case['machine'])
+    sim = mach.new_sim()
+    mem = sim.memory
+    cells = {int(k): v for k, v in case['cells'].items()}
+    if case['machine'] == 128:
+        mem.out7ffd(case['o7ffd'])
+        for a, v in cells.items():
+            mem.memory[a // 0x4000][a % 0x4000] = v
+    else:
+        for a, v in cells.items():
+            mem[a] = v
+    regs = list(case['regs'])
+    sim.registers[:] = regs
+    tgt, off = DISPATCH[(case['table'], case['index'])]
+    table = getattr(sim, tgt)
+    hits = []
+    saved = list(table)
+    try:
+        for i in range(len(table)):
+            table[i] = (lambda i=i: hits.append(i))
+        exp = mem[(regs[Z.PC] + off) & 0xFFFF]
+        try:
+            getattr(sim, case['table'])[case['index']]()
+        except Exception as ex:
+            return [('exception', repr(ex))]
+    finally:
+        table[:] = saved
+    diffs = []
+    if hits != [exp]:
+        diffs.append(('dispatch', 'entry %s of %s' % (hits, tgt), 'entry %d: the byte at PC + %d = %d' % (exp, off, (regs[Z.PC] + off) & 0xFFFF)))
+    if list(sim.registers) != regs:
+        diffs.append(('dispatch_frame', 'registers changed', 'unchanged'))
+    return diffs
 
 
 def concrete_exec(case):
@@ -658,6 +699,12 @@ def replay_search(cex, kind, tries=300):
                 c2['cells'].setdefault(str((base + off) & 0xFFFF), rnd.randrange(256))
         for off in (-2, -1, 0, 1):
             c2['cells'].setdefault(str((regs[Z.SP] + off) & 0xFFFF), rnd.randrange(256))
+        # the instruction bytes after the first one, and the cells a wrapped or mis-wrapped fetch would read instead
+        # (a dispatch that reads the wrong cell shows only if that cell holds something else)
+        for off in range(1, 5):
+            for a in ((regs[Z.PC] + off) & 0xFFFF, (regs[Z.PC] + off) % 65535, off - 1):
+                if str(a) not in cex['cells']:
+                    c2['cells'][str(a)] = rnd.randrange(256)
         c2['regs'] = regs
         c2['inval'] = rnd.randrange(256)
         d = concrete_run(c2)
